@@ -5,7 +5,10 @@ the driver of the real CLI and the parsers of its output files.  A case is a jso
   reads  fastq: [[name, comment|None, seq, qual], ...]
          bam:   [{"name","flag","ref","pos","mapq","cigar","seq","qual","tags":[[tag,type,value],...]}, ...]
   sq     bam only: [[refname, length], ...]  ([] = unmapped BAM without @SQ)
-  list   {"header": bool, "ncols": 2..5, "gz": bool, "lines": [[name, hapname, phaseset, chrom], ...]}
+  list   {"header": bool, "ncols": 2..5, "gz": bool, "lines": [[name, hapname, phaseset, chrom], ...],
+          "eol": "\\n" | "\\r\\n", "final_newline": bool}
+  hashseed  PYTHONHASHSEED of the CLI process;  final_newline (fastq): last line of the reads file ends in \\n;
+  ext    optional file name extension of a FASTQ reads file (fq, fq.gz, fastq.gzip, ...)
   opts   {"mode": "h"|"o", "h1": bool, "h2": bool, "k": int, "untagged": bool, "add": bool,
           "largest": bool, "discard": bool, "hist": bool, "gzout": bool}
 """
@@ -21,7 +24,14 @@ CIGAR_QUERY = "MIS=X"
 
 
 # ------------------------------------------------------------------------------------ generation
+SPECIAL_NAMES = ["none", "H1", "H2", "readname", "chr1", "1", "7", "a", "a/1", "a/2", "ab", "abc", "x", "X", "r1", "r10"]
+PS_POOL = ["1", "7", "500", "90210", "10", "2", "0", "PSa", "none", "chr1"]
+CHROM_POOL = ["chr1", "chr2", "chr10", "1", "X", "ref"]
+
+
 def gen_name(rng):
+    if rng.random() < 0.2:
+        return rng.choice(SPECIAL_NAMES)      # names sharing prefixes / looking like haplotype, phase set, chromosome names
     n = rng.choice([1, 1, 2, 3, 6])
     s = "".join(rng.choice(NAME_CHARS) for _ in range(n))
     return ("r" + s) if s[0] in "/_:-." else s
@@ -140,7 +150,69 @@ def opts_ploidy(o):
     return 2 if o["mode"] == "h" else o["k"]
 
 
-def gen_case(rng, combo=None, fmt=None, allow_empty_fastq=False, dup_list_names=None, invalid=None):
+def gen_tie_lines(rng, names, p, chroms):
+    """list lines for --only-largest-block in which, on every chromosome, at least two phase sets share the
+    maximal number of tagged lines; the lines of all blocks are interleaved, so which block comes first in the
+    file is independent of its name; sometimes a name is repeated inside a block (line count != read count)"""
+    fresh = list(names)
+    rng.shuffle(fresh)
+    lines = []
+    for ch in chroms:
+        k = rng.choice([2, 2, 3])
+        m = rng.choice([1, 1, 2, 3])
+        for j, ps in enumerate(rng.sample(PS_POOL, k)):
+            size = m if j < 2 or rng.random() < 0.4 else rng.randint(1, m)
+            blk = []
+            for i in range(size):
+                if blk and rng.random() < 0.15:
+                    n = rng.choice(blk)[0]                    # same read twice in the block (mates)
+                elif fresh:
+                    n = fresh.pop()
+                else:
+                    n = gen_name(rng) + str(len(lines) + i)
+                blk.append([n, f"H{rng.randint(1, p)}", ps, ch])
+            lines += blk
+    for _ in range(rng.choice([0, 0, 1, 2])):
+        lines.append([rng.choice(names) if names and rng.random() < 0.5 else gen_name(rng), "none",
+                      rng.choice(PS_POOL), rng.choice(chroms)])
+    rng.shuffle(lines)
+    return lines
+
+
+def largest_block_features(lines):
+    """(for tallies only) tie situations among the phase sets of a 4-column list"""
+    feats = set()
+    per = {}
+    for n, h, ps, ch in lines:
+        if h == "none":
+            continue
+        per.setdefault(ch, {}).setdefault(ps, []).append(n)
+    seen_ps = {}
+    for ch, blocks in per.items():
+        for ps in blocks:
+            seen_ps.setdefault(ps, set()).add(ch)
+        if len(blocks) >= 2:
+            feats.add("several_blocks_on_a_chromosome")
+        top = max(len(v) for v in blocks.values())
+        tops = [ps for ps, v in blocks.items() if len(v) == top]      # insertion order = file order
+        if len(tops) >= 2:
+            feats.add("tie_at_top")
+            if tops[0] != min(tops):
+                feats.add("tie_first_in_file_is_not_smallest_name")
+            if tops[0] != max(tops):
+                feats.add("tie_first_in_file_is_not_largest_name")
+        ntop = max(len(set(v)) for v in blocks.values())
+        ntops = [ps for ps, v in blocks.items() if len(set(v)) == ntop]
+        if ntops[0] != tops[0] or len(ntops) != len(tops):
+            feats.add("line_count_and_read_count_disagree")
+    if any(len(c) >= 2 for c in seen_ps.values()):
+        feats.add("same_phaseset_name_on_two_chromosomes")
+    if len(per) >= 2:
+        feats.add("two_or_more_chromosomes")
+    return feats
+
+
+def gen_case(rng, combo=None, fmt=None, allow_empty_fastq=False, dup_list_names=None, invalid=None, ext=None):
     """invalid: None | 'badhap' | 'emptyfile' | 'largest2col' | 'noknown'"""
     o = gen_opts(rng, combo)
     p = opts_ploidy(o)
@@ -179,14 +251,17 @@ def gen_case(rng, combo=None, fmt=None, allow_empty_fastq=False, dup_list_names=
     ncols = rng.choice([2, 2, 3, 4, 4, 4, 5])
     if o["largest"]:
         ncols = rng.choice([4, 4, 5])
-    chroms = ["chr1", "chr2"][:rng.choice([1, 1, 2])]
-    pss = [str(x) for x in rng.sample([1, 7, 500, 90210], rng.choice([1, 2, 3]))]
+    chroms = rng.sample(CHROM_POOL, rng.choice([1, 1, 2, 3]))
+    pss = rng.sample(PS_POOL, rng.choice([1, 2, 3, 4]))
     haps = ["none"] + [f"H{i}" for i in range(1, p + 1)]
     lines = []
     for n in listed:
         h = rng.choice(haps + haps[1:])
         lines.append([n, h, rng.choice(pss) if h != "none" or rng.random() < 0.5 else "none", rng.choice(chroms)])
-    lst = {"header": rng.random() < 0.6, "ncols": ncols, "gz": rng.random() < 0.2, "lines": lines}
+    if o["largest"] and invalid is None and rng.random() < 0.5:
+        lines = gen_tie_lines(rng, pool + extra, p, chroms)
+    lst = {"header": rng.random() < 0.6, "ncols": ncols, "gz": rng.random() < 0.2, "lines": lines,
+           "eol": rng.choice(["\n", "\n", "\n", "\r\n"]), "final_newline": rng.random() < 0.8}
     if invalid == "badhap":
         if not lines:
             lines.append([gen_name(rng), "H1", pss[0], chroms[0]])
@@ -206,9 +281,13 @@ def gen_case(rng, combo=None, fmt=None, allow_empty_fastq=False, dup_list_names=
         lst["lines"] = []
     elif not lst["header"] and not lines:
         lst["header"] = True
-    case = {"fmt": fmt, "reads": reads, "list": lst, "opts": o}
+    case = {"fmt": fmt, "reads": reads, "list": lst, "opts": o, "hashseed": rng.choice(["0", "0", "1", "7", "42"])}
     if fmt == "bam":
         case["sq"] = sq
+    else:
+        case["final_newline"] = rng.random() < 0.85
+        if ext:
+            case["ext"] = ext
     return case
 
 
@@ -249,12 +328,14 @@ def write_reads(case, d):
                 f.write(a)
         return path
     text = "".join(fastq_record_text(r) for r in case["reads"])
+    if not case.get("final_newline", True) and case["reads"] and case["reads"][-1][2]:
+        text = text[:-1]                                   # last line without newline
+    ext = case.get("ext") or fmt                           # file name extension (fastq, fastq.gz, fq, fq.gz, fastq.gzip)
+    path = os.path.join(d, "reads." + ext)
     if fmt == "fastq.gz":
-        path = os.path.join(d, "reads.fastq.gz")
         with gzip.open(path, "wt") as f:
             f.write(text)
     else:
-        path = os.path.join(d, "reads.fastq")
         with open(path, "w") as f:
             f.write(text)
     return path
@@ -267,18 +348,22 @@ def list_text(lst):
         out.append("\t".join(["#readname", "haplotype", "phaseset", "chromosome", "extra"][:nc]))
     for name, hap, ps, chrom in lst["lines"]:
         out.append("\t".join([name, hap, ps, chrom, "x"][:nc]))
-    return "".join(x + "\n" for x in out)
+    eol = lst.get("eol", "\n")
+    text = "".join(x + eol for x in out)
+    if not lst.get("final_newline", True) and out:
+        text = text[:-len(eol)]
+    return text
 
 
 def write_list(case, d):
     lst = case["list"]
     if lst["gz"]:
         path = os.path.join(d, "list.tsv.gz")
-        with gzip.open(path, "wt") as f:
+        with gzip.open(path, "wt", newline="") as f:
             f.write(list_text(lst))
     else:
         path = os.path.join(d, "list.tsv")
-        with open(path, "w") as f:
+        with open(path, "w", newline="") as f:
             f.write(list_text(lst))
     return path
 
@@ -406,7 +491,17 @@ def prepare_case(case, d):
 
 
 def collect(case, prep, rc, se):
-    """the observation dict of one finished run"""
+    """the observation dict of one finished run; unreadable / missing output files are an observation
+    (error class other:output-unreadable), never a harness error"""
+    try:
+        return _collect(case, prep, rc, se)
+    except Exception as e:  # noqa: BLE001
+        return {"rc": rc if rc != 0 else 1, "inputs": input_reads(case, prep["reads_path"]),
+                "requested": [x is not None for x in prep["paths"]],
+                "error": "other:output-unreadable", "stderr": (se[-300:] + " | " + repr(e))[-600:]}
+
+
+def _collect(case, prep, rc, se):
     paths, hist_path, reads_path = prep["paths"], prep["hist_path"], prep["reads_path"]
     p = opts_ploidy(case["opts"])
     obs = {"rc": rc, "inputs": input_reads(case, reads_path), "requested": [x is not None for x in paths]}
@@ -438,7 +533,7 @@ def collect(case, prep, rc, se):
 def run_case(ctx, case, d):
     """run the real CLI (one `python -m whatshap split ...` process) on the case in directory d"""
     prep = prepare_case(case, d)
-    rc, so, se = run_cli(ctx, prep["args"], cwd=d, timeout=120)
+    rc, so, se = run_cli(ctx, prep["args"], cwd=d, timeout=120, hashseed=case.get("hashseed", "0"))
     return collect(case, prep, rc, se)
 
 
